@@ -15,6 +15,8 @@ use crate::util::*;
 use serde_json::json;
 
 const SAMPLE_PER_SCENARIO: usize = 6;
+/// `8.0 * uc::MIN` in run_dispatch
+const CONFIGURED_HEADWAY_S: f64 = 480.0;
 
 /// `plan_produced` = run_dispatch returned Ok.  When it returned an error no plan is produced; a movement
 /// timed at +infinity in an intermediate state of such a run never takes place (the run reports the trains
@@ -42,7 +44,11 @@ fn snap_oracle(net: &[altrios_core::track::Link], s: &Snap) -> (bool, bool, Vec<
         let (evs, t_end) = train_events(t);
         match occupancy(&evs, t_end) { Ok(o) => occs.push(o), Err(e) => { derivable = false; f.push(format!("train {}: {}", i, e)); occs.push(vec![]); } }
     }
-    let hw = s.trains.get(1).map(|t| t.time_spacing).unwrap_or(480.0);
+    // the configured headway is run_dispatch's own constant (8 min), not whatever a train carries
+    let hw = CONFIGURED_HEADWAY_S;
+    for (i, t) in s.trains.iter().enumerate().skip(1) {
+        if t.time_spacing != CONFIGURED_HEADWAY_S { f.push(format!("train {} carries a headway of {} s, the configured headway is {} s", i, t.time_spacing, CONFIGURED_HEADWAY_S)); break; }
+    }
     let c = no_conflict(net, &occs, hw);
     let ok = derivable && c.is_empty();
     f.extend(c);
@@ -73,7 +79,7 @@ fn snap_oracle(net: &[altrios_core::track::Link], s: &Snap) -> (bool, bool, Vec<
 }
 
 fn coq_state(net: &[altrios_core::track::Link], s: &Snap) -> String {
-    let hw = s.trains.get(1).map(|t| t.time_spacing).unwrap_or(480.0);
+    let hw = CONFIGURED_HEADWAY_S;
     let ts: Vec<String> = s.trains.iter().skip(1).map(|t| { let (evs, t_end) = train_events(t); format!("({}, {})", coq_events(&evs), coq_optf(t_end)) }).collect();
     format!("x_state_ok {} {} [{}]", coq_links(net), cf(hw), ts.join("; "))
 }
@@ -142,7 +148,7 @@ fn ledger_cases(k: usize, net: &[altrios_core::track::Link], snaps: &[Snap], tag
     let empty: Vec<Vec<LAuth>> = vec![vec![]; n_links];
     let mut prev = empty.clone();
     let mut base = empty.clone(); // the ledger at the start of the current outer-loop iteration
-    let hw = snaps[0].trains.get(1).map(|t| t.time_spacing).unwrap_or(480.0);
+    let hw = CONFIGURED_HEADWAY_S;
     let n_adv = snaps.iter().filter(|s| s.label == "advance").count();
     let step = ((n_adv + LEDGER_CASES_PER_SCENARIO - 1) / LEDGER_CASES_PER_SCENARIO).max(1);
     let mut i_adv = 0usize;
